@@ -153,6 +153,7 @@ def entry_points(prog, rep):
 
             def h(m, st, callee, args, term):
                 seen.append((args[0], args[1]))
+                st.emit(("gdpv", len(seen) - 1))
                 return ip.Sym(("dpv-result",), DPV + "!opaque")
 
             m = ip.Machine(prog, OracleWorld(prog, {GDPV: h}))
@@ -168,20 +169,51 @@ def entry_points(prog, rep):
                     rep.analysis_error("entry-point", key, e, b.where())
                 continue
             n += 1
-            okk = len(outs) == 1 and outs[0].kind == "return" and isinstance(outs[0].value, ip.Sym) and outs[0].value.name == ("dpv-result",) and len(seen) == 1
-            d = ""
-            if okk:
-                cp, obj = seen[0]
-                if not (isinstance(cp, ip.Sym) and cp.name == "x" and cp.ty == "u32"):
-                    okk, d = False, "code point passed on is %r, not the argument itself" % (cp,)
-                objv = obj
-                if isinstance(objv, ip.Ref) and objv.loc[0] == "val":
-                    objv = objv.loc[1]
-                if okk and not (isinstance(objv, ip.Adt) and objv.ty == cls):
-                    okk, d = False, "class object passed on is %r, not self" % (obj,)
-            else:
-                d = "must be exactly one call of get_derived_property_value whose result is returned (%d calls, %d paths)" % (len(seen), len(outs))
-            rep.ob("entry-point", "%s::%s" % (cls.split("::")[-1], meth), okk, d, b.where())
+            label = "%s::%s" % (cls.split("::")[-1], meth)
+            okk, d, shortcuts = True, "", []
+            for o in outs:
+                calls = [e[1] for e in o.state.events if e[0] == "gdpv"]
+                if o.kind != "return":
+                    okk, d = False, "a path ends with %s" % o.kind
+                    break
+                if len(calls) == 1 and isinstance(o.value, ip.Sym) and o.value.name == ("dpv-result",):
+                    cp, obj = seen[calls[0]]
+                    if not (isinstance(cp, ip.Sym) and cp.name == "x" and cp.ty == "u32"):
+                        okk, d = False, "code point passed on is %r, not the argument itself" % (cp,)
+                    objv = obj
+                    if isinstance(objv, ip.Ref) and objv.loc[0] == "val":
+                        objv = objv.loc[1]
+                    if okk and not (isinstance(objv, ip.Adt) and objv.ty == cls):
+                        okk, d = False, "class object passed on is %r, not self" % (obj,)
+                elif not calls and isinstance(o.value, ip.Adt) and o.value.ty == DPV:
+                    # a shortcut in front of the decision list: a second definition of the derived property for
+                    # the code points that take it — it has to agree with the list on every one of them
+                    shortcuts.append((ip.rng_get(o.state, ip.Sym("x", aty)), dpv_name(prog, o.value)))
+                else:
+                    okk, d = False, "must be one call of get_derived_property_value whose result is returned, or a constant answer (%d calls on a path, result %s)" % (len(calls), dpv_name(prog, o.value))
+                if not okk:
+                    break
+            if okk and not any(e for o in outs for e in o.state.events if e[0] == "gdpv"):
+                okk, d = False, "no path consults get_derived_property_value"
+            rep.ob("entry-point", label, okk, d, b.where())
+            if okk and shortcuts:
+                bad, undec, ncp = [], [], 0
+                for rng, name in shortcuts:
+                    for lo, hi in rng:
+                        for cp in range(lo, min(hi, ucd.MAXCP) + 1):
+                            ncp += 1
+                            want = spec_outcome(prog, cp, cls)
+                            if want is None:
+                                undec.append(cp)
+                            elif want != name:
+                                bad.append((cp, name, want))
+                d = ""
+                if bad:
+                    cp, name, want = bad[0]
+                    d = "%d code point(s) get a different value from the shortcut than from the decision list, e.g. U+%04X: shortcut %s, RFC 8264 §8 list %s" % (len(bad), cp, name, want)
+                elif undec:
+                    d = "the shortcut answers for %d code point(s) (e.g. U+%04X) whose value in the list depends on HasCompat (NFKC data of an external crate): agreement not decided" % (len(undec), undec[0])
+                rep.ob("entry-point", "%s: shortcut agrees with the decision list on the %d code point(s) that take it" % (label, ncp), not bad and not undec, d, b.where(), key="entry-point|shortcut|%s" % label)
     rep.floor("entry points", n, 4)
 
 
@@ -295,13 +327,13 @@ def has_compat(prog, rep):
     rep.ob("has-compat", "has_compat(cp) = NFKC(c) differs from c (false for non-scalar values)", not bad, "; ".join(sorted(set(bad))[:2]), b.where(), key="has-compat", sample=True)
 
 
-def registry_crosscheck(prog, rep, res):
-    """(g): classify all code points from the folded tables with the RFC list and compare with the CSV."""
-    repo = facts.REPO
-    csvp = os.path.join(repo, "precis-core/resources/csv/precis-tables-6.3.0.csv")
-    if not os.path.exists(csvp):
-        rep.ob("registry", "csv present", False, "%s missing" % csvp)
-        return
+_CLASSIFIER = {}
+
+
+def classifier(prog):
+    """(exceptions, backward-compatible, predicate masks) from the folded tables and the L4 formulas."""
+    if id(prog) in _CLASSIFIER:
+        return _CLASSIFIER[id(prog)]
     tabs, errs = tables.all_tables(prog)
     mask = {}
     for name in set(sum((l4.formula_tables(f) for f in ps.PREDICATES.values()), [])):
@@ -326,6 +358,39 @@ def registry_crosscheck(prog, rep, res):
         return ucd.mask_andnot(mask[f[1]], mask[f[2]])
 
     pm = {n: pred_mask(n) for n, _ in ps.DECISION_LIST if n in ps.PREDICATES}
+    _CLASSIFIER[id(prog)] = (exc, bc, pm)
+    return exc, bc, pm
+
+
+def spec_outcome(prog, cp, cls):
+    """The derived property the decision list (as extracted and bound by the other rules) gives cp in class
+    cls; None when that depends on HasCompat of a non-ASCII code point (not decidable from the tables).
+    For cp < U+0080, HasCompat is false: ASCII is unchanged by every Unicode normalization form."""
+    exc, bc, pm = classifier(prog)
+    if cp in exc:
+        return exc[cp]
+    if cp in bc:
+        return bc[cp]
+    if cp > ucd.MAXCP:
+        return ps.DEFAULT_OUTCOME
+    for name, outcome in ps.DECISION_LIST[2:]:
+        if name == "has_compat":
+            if cp < 0x80:
+                continue
+            return None
+        if pm[name][cp]:
+            return ps.CLASS_OUTCOMES[cls] if outcome.startswith("on_") else outcome
+    return ps.DEFAULT_OUTCOME
+
+
+def registry_crosscheck(prog, rep, res):
+    """(g): classify all code points from the folded tables with the RFC list and compare with the CSV."""
+    repo = facts.REPO
+    csvp = os.path.join(repo, "precis-core/resources/csv/precis-tables-6.3.0.csv")
+    if not os.path.exists(csvp):
+        rep.ob("registry", "csv present", False, "%s missing" % csvp)
+        return
+    exc, bc, pm = classifier(prog)
     reg = ucd.csv_registry(csvp)
     covered = 0
     bad = []
